@@ -1,5 +1,7 @@
 import DAVerif.Drv.Util
 import DAVerif.Drv.OSet
+import DAVerif.Drv.CC
+import DAVerif.Drv.OpsDrv
 /-!
 Line-protocol driver: one JSON case per input line
   {"suite": "...", "id": n, "case": {...}}   →   {"id": n, "out": ...} | {"id": n, "bad": "reason"}
@@ -8,7 +10,7 @@ Total: a malformed or unknown case answers `bad`.
 open Lean DAVerif.Drv
 
 def allHandlers : List (String × Handler) :=
-  OSetDrv.handlers
+  OSetDrv.handlers ++ CCDrv.handlers ++ OpsDrv.handlers
 
 def answer (line : String) : Json :=
   match Json.parse line with
